@@ -109,6 +109,14 @@ BUILT = {
             'Nearest-official-version semantics for in-between labels is taken from Version.nearest (pinned by the test-suite); '
             'Bin not generated.',
             'DESIGN.md 3/C10'),
+    'C11': ('exhaustive small-scope enumeration of filter ASTs x all tag valuations + hypothesis ASTs/renderings/grids; differential oracle against a reference evaluator',
+            'Every filter with <= 3 atoms over a 12-atom alphabet and 8 connective shapes (incl. 3-operand chains and mixed '
+            'precedence) is run on a grid holding all 7x7x5 valuations of its tags (absent, null, marker, equal, below, above, '
+            'other kind, valid/dangling/non-Ref); Hypothesis adds deeper ASTs with nine literal kinds, keyword-prefixed tag '
+            'names, two-level paths, spelling/parenthesis variation and limit. Selected rows (identity, order, limit), carried '
+            'header and an untouched source grid are compared with an evaluator written from the Haystack filter semantics.',
+            'Semantics pinned in DESIGN.md Appendix C; ids are plain strings; Ref equality by name, display-less.',
+            'DESIGN.md 3/C11'),
     'C14': ('exhaustive small-scope enumeration of operation histories + hypothesis histories, lock-step with a Python list model',
             'Every history of up to 4 (quick) / 5 (thorough) operations over a 27-op alphabet (append, insert, extend, +=, item '
             'assignment, del by index and slice, pop, remove, reverse, clear, continue-on-slice, refused non-dict rows and '
